@@ -32,7 +32,10 @@ def smootherStep (legacy : Bool) (s : Option St) (toks : List String) : Option S
     | some st, some kind, some tag, some mult =>
       let (st', os) := processG legacy st ⟨kind, tag, mult⟩; (some st', [showOuts os])
     | _, _, _, _ => (s, ["bad-op"])
-  | ["proc", k, t, m, "take", n] =>
+  -- `panic N`: the consumer panics after N items while holding the iterator - for the smoother this
+  -- is an early drop like any other
+  | ["proc", k, t, m, kw, n] =>
+    if kw ≠ "take" ∧ kw ≠ "panic" then (s, ["bad-op"]) else
     match s, parseKind k, t.toNat?, parseMult m, n.toNat? with
     | some st, some kind, some tag, some mult, some cnt =>
       let (st', os) := takeDropG legacy cnt st ⟨kind, tag, mult⟩; (some st', [showOuts os])
